@@ -152,7 +152,8 @@ template <class T> static Q3 corner (const FG<T>& g, int k)
 enum
 {
     PJ_BEHIND = FL_FIRST_FREE,
-    PJ_OUTSIDE_WINDOW
+    PJ_OUTSIDE_WINDOW,
+    PJ_RAY_BEHIND
 };
 template <class T> static void proj_case (vp::Ctx& c, const char* tn)
 {
@@ -233,6 +234,23 @@ template <class T> static void proj_case (vp::Ctx& c, const char* tn)
         QG_CHK (c, "projectPointToScreen/vs-matrix", qabs ((quad) sp.y - o.y), eps * (cy + an.y), 4, tn << " projectPointToScreen(" << vs (p) << ").y = " << sp.y << " but (p*projectionMatrix).y/w = " << qstr (o.y)); // measured worst 0.85 units
         QG_CHK (c, "projectPointToScreen/exact", qabs ((quad) sp.x - ex.x), eps * cx, 8, tn << " projectPointToScreen(" << vs (p) << ").x = " << sp.x << " exact " << qstr (ex.x)); // measured worst 1.8 units
         QG_CHK (c, "projectPointToScreen/exact", qabs ((quad) sp.y - ex.y), eps * cy, 8, tn << " projectPointToScreen(" << vs (p) << ").y = " << sp.y << " exact " << qstr (ex.y)); // measured worst 1.8 units
+        // the throwing spelling is a second textual copy of the same projection: same point (in front of, beside or
+        // behind the eye), same oracle, same bounds; these frusta are far from the overflow guard, so it must return
+        Vec2<T> se (0, 0);
+        bool    threw = false;
+        try
+        {
+            se = F.projectPointToScreenExc (p);
+        }
+        catch (const std::exception&)
+        {
+            threw = true;
+        }
+        VP_REQUIRE (c, !threw, "projectPointToScreenExc/throws", tn << " projectPointToScreenExc(" << vs (p) << ") threw on a non-degenerate frustum");
+        QG_CHK (c, "projectPointToScreenExc/vs-matrix", qabs ((quad) se.x - o.x), eps * (cx + an.x), 4, tn << " projectPointToScreenExc(" << vs (p) << ").x = " << se.x << " but (p*projectionMatrix).x/w = " << qstr (o.x)); // measured worst 0.85 units
+        QG_CHK (c, "projectPointToScreenExc/vs-matrix", qabs ((quad) se.y - o.y), eps * (cy + an.y), 4, tn << " projectPointToScreenExc(" << vs (p) << ").y = " << se.y << " but (p*projectionMatrix).y/w = " << qstr (o.y)); // measured worst 0.85 units
+        QG_CHK (c, "projectPointToScreenExc/exact", qabs ((quad) se.x - ex.x), eps * cx, 8, tn << " projectPointToScreenExc(" << vs (p) << ").x = " << se.x << " exact " << qstr (ex.x)); // measured worst 1.8 units
+        QG_CHK (c, "projectPointToScreenExc/exact", qabs ((quad) se.y - ex.y), eps * cy, 8, tn << " projectPointToScreenExc(" << vs (p) << ").y = " << se.y << " exact " << qstr (ex.y)); // measured worst 1.8 units
     }
     // ---- projectScreenToRay passes through every point that projects to the screen position
     {
@@ -245,14 +263,23 @@ template <class T> static void proj_case (vp::Ctx& c, const char* tn)
         QG_CHK (c, "projectScreenToRay/unit-dir", qabs (len (RD) - 1), eps, 6, tn << " |ray.dir| = " << qstr (len (RD))); // measured worst 1.2 units
         VP_REQUIRE (c, RD.z < 0, "projectScreenToRay/direction", tn << " ray does not point down -z: dir=" << vs (ray.dir));
         quad cx = scr_cond (l, r, lx), cy = scr_cond (b, t, ly);
-        for (int k = 0; k < 3; ++k)
+        for (int k = 0; k < 4; ++k)
         {
-            // a point that projects exactly to sp, at a chosen depth
-            quad dep = k == 0 ? n : k == 1 ? f : n * (quad) std::pow (10.0, s.uniform (-1, 1) + (double) s.below (3));
+            // a point that projects exactly to sp, at a chosen depth; the last one lies behind the eye (depth < 0:
+            // homogeneous w < 0, the perspective image is mirrored through the eye and still projects to sp)
+            quad dep;
+            if (k < 3)
+                dep = k == 0 ? n : k == 1 ? f : n * (quad) std::pow (10.0, s.uniform (-1, 1) + (double) s.below (3));
+            else
+            {
+                double bexp = s.uniform (-1, 2);
+                dep         = -n * (quad) std::pow (10.0, bexp);
+                c.label (PJ_RAY_BEHIND);
+            }
             Q3   Y   = g.ortho ? Q3 (lx, ly, -dep) : Q3 (lx, ly, -n) * (dep / n);
             quad dist = len (cross (Y - RP, RD)) / len (RD);
             // local-position rounding eps*(|l|+|r|) is magnified by depth/near along a perspective ray
-            quad mag = g.ortho ? 1 : dep / n;
+            quad mag = g.ortho ? 1 : qabs (dep) / n;
             quad unit_ = eps * (mag * (qabs (l) + qabs (r) + qabs (t) + qabs (b) + (g.ortho ? 0 : n)) + len (Y));
             QG_CHK (c, "projectScreenToRay/through-point", dist, unit_, 4, tn << " point " << qs (Y) << " projects to the screen position but is " << qstr (dist) << " away from the ray " << vs (ray.pos) << "+t" << vs (ray.dir)); // measured worst 0.81 units
             // and points of the ray project back to sp (textbook projection of ray(t))
@@ -261,18 +288,39 @@ template <class T> static void proj_case (vp::Ctx& c, const char* tn)
             Q3   e  = ndc_exact (g, Z);
             QG_CHK (c, "projectScreenToRay/projects-back", qabs (e.x - (quad) sp.x), eps * cx, 12, tn << " ray point " << qs (Z) << " projects to x = " << qstr (e.x) << ", screen x = " << sp.x); // measured worst 2.3 units
             QG_CHK (c, "projectScreenToRay/projects-back", qabs (e.y - (quad) sp.y), eps * cy, 12, tn << " ray point " << qs (Z) << " projects to y = " << qstr (e.y) << ", screen y = " << sp.y); // measured worst 2.3 units
+            // ... also through the library's own projection, both spellings: the ray point rounded to T (<= eps/2 per
+            // coordinate, i.e. <= 2 eps |local position|) adds to the two bounds above
+            V zp = rnd<T> (Z);
+            if (zp.z != 0)
+            {
+                Vec2<T> b1 = F.projectPointToScreen (zp), b2 (0, 0);
+                bool    threw = false;
+                try
+                {
+                    b2 = F.projectPointToScreenExc (zp);
+                }
+                catch (const std::exception&)
+                {
+                    threw = true;
+                }
+                VP_REQUIRE (c, !threw, "projectPointToScreenExc/throws", tn << " projectPointToScreenExc(" << vs (zp) << ") threw on a non-degenerate frustum");
+                QG_CHK (c, "projectScreenToRay/projectPointToScreen-roundtrip", qabs ((quad) b1.x - (quad) sp.x), eps * cx, 16, tn << " ray point " << vs (zp) << " (t = " << qstr (tt) << ") projects to x = " << b1.x << ", screen x = " << sp.x); // measured worst 2.8 units
+                QG_CHK (c, "projectScreenToRay/projectPointToScreen-roundtrip", qabs ((quad) b1.y - (quad) sp.y), eps * cy, 16, tn << " ray point " << vs (zp) << " (t = " << qstr (tt) << ") projects to y = " << b1.y << ", screen y = " << sp.y); // measured worst 2.8 units
+                QG_CHK (c, "projectScreenToRay/projectPointToScreenExc-roundtrip", qabs ((quad) b2.x - (quad) sp.x), eps * cx, 16, tn << " ray point " << vs (zp) << " (t = " << qstr (tt) << ") projects (Exc) to x = " << b2.x << ", screen x = " << sp.x); // measured worst 2.8 units
+                QG_CHK (c, "projectScreenToRay/projectPointToScreenExc-roundtrip", qabs ((quad) b2.y - (quad) sp.y), eps * cy, 16, tn << " ray point " << vs (zp) << " (t = " << qstr (tt) << ") projects (Exc) to y = " << b2.y << ", screen y = " << sp.y); // measured worst 2.8 units
+            }
         }
     }
 }
 #define C16_FR_RULE "frusta: perspective/orthographic, near 1e-2..1e2, far/near 1.02..1e8, window width 0.05..5 x near (ortho 0.1..100), centred / asymmetric / fully off-axis, built by set(), the constructors, operator= or set(fov,aspect); "
-#define C16_PJ_RULE C16_FR_RULE "points at depths around near and far (some behind the eye, some outside the window), screen positions in [-1.25,1.25]^2; oracle = textbook glFrustum/glOrtho in quad; non-trivial = asymmetric window or far/near > 100"
+#define C16_PJ_RULE C16_FR_RULE "points at depths around near and far (some behind the eye, some outside the window), projected by both the noexcept and the Exc spelling; screen positions in [-1.25,1.25]^2 with ray points at near, far, 0.1..1000 near and 0.1..100 near behind the eye; oracle = textbook glFrustum/glOrtho in quad; non-trivial = asymmetric window or far/near > 100"
 VP_RANDOM (proj_f, 300000, 3000000, C16_PJ_RULE) { proj_case<float> (c, "float"); }
-VP_LABELS (proj_f, C16_FR_LABELS, "point_behind_eye", "point_outside_window")
-VP_REQUIRE_LABELS (proj_f, C16_FR_LABELS, "point_behind_eye", "point_outside_window")
+VP_LABELS (proj_f, C16_FR_LABELS, "point_behind_eye", "point_outside_window", "ray_point_behind_eye")
+VP_REQUIRE_LABELS (proj_f, C16_FR_LABELS, "point_behind_eye", "point_outside_window", "ray_point_behind_eye")
 VP_FUZZABLE (proj_f)
 VP_RANDOM (proj_d, 300000, 3000000, C16_PJ_RULE) { proj_case<double> (c, "double"); }
-VP_LABELS (proj_d, C16_FR_LABELS, "point_behind_eye", "point_outside_window")
-VP_REQUIRE_LABELS (proj_d, C16_FR_LABELS, "point_behind_eye", "point_outside_window")
+VP_LABELS (proj_d, C16_FR_LABELS, "point_behind_eye", "point_outside_window", "ray_point_behind_eye")
+VP_REQUIRE_LABELS (proj_d, C16_FR_LABELS, "point_behind_eye", "point_outside_window", "ray_point_behind_eye")
 VP_FUZZABLE (proj_d)
 
 // =====================================================================================
@@ -941,5 +989,331 @@ VP_RANDOM (cull_d, 150000, 1500000, C16_CU_RULE) { cull_case<double> (c, "double
 VP_LABELS (cull_d, C16_FR_LABELS, C16_CU_LABELS)
 VP_REQUIRE_LABELS (cull_d, "perspective", "orthographic", "asymmetric_window", "far/near>100", "at_top", "at_right", "at_bottom", "at_left", "at_near", "at_far", "placed_inside", "placed_outside", "within_10_margins_of_a_plane", "point_visible", "point_hidden", "box_touches(must be visible)", "box_has_point_outside(must not be contained)", "box_completelyContains_true", "box_isVisible_false", "sphere_touches(must be visible)", "sphere_has_point_outside(must not be contained)", "sphere_completelyContains_true", "sphere_isVisible_false")
 VP_FUZZABLE (cull_d)
+
+// =====================================================================================
+// 6. FrustumTest against unbounded / huge objects: the infinite box (Box::makeInfinite), boxes wider than
+//    numeric_limits<T>::max() along an axis, half-infinite boxes, huge finite boxes, spheres with a radius up to max();
+//    cameras axis-aligned (signed permutations x power-of-two scales + translation: every plane normal keeps exact
+//    zero components) or general.
+//
+//    The box / sphere tests evaluate  n.centre -+ |n|.extent - offset  in T.  A claim is made only where that
+//    evaluation is well conditioned:  the exact value of the extreme corner (deepest / shallowest point of the object
+//    with respect to plane j, exact planes, quad) must clear  guard_j = plane margin at the extreme points + 8 eps x
+//    (|min| + |max|) (box) or 8 eps x radius (sphere).
+//      isVisible must be true   <=  a witness point of the object is inside the region by the usual margin, and the
+//                                   deepest point clears the guard of every plane;
+//      completelyContains must be false  <=  for some plane the shallowest point (a point of the object) is outside by
+//                                   more than the guard.
+//    (Half-infinite boxes whose finite face is near the frustum cancel catastrophically in centre -+ extent; the guard
+//    makes no claim about the plane concerned.)
+//    Boxes are generated with min + max finite on every axis (min <= 0 <= max, or one of them of moderate size).
+// =====================================================================================
+enum
+{
+    HU_CAM_AXIS = FL_FIRST_FREE,
+    HU_CAM_GENERAL,
+    HU_BOX_INFINITE,
+    HU_BOX_WIDER_THAN_MAX,
+    HU_BOX_HALF_INFINITE,
+    HU_BOX_HUGE_FINITE,
+    HU_BOX_MUST_BE_VISIBLE,
+    HU_BOX_NOT_CONTAINED,
+    HU_SPH_RADIUS_MAX,
+    HU_SPH_FAR_CENTRE,
+    HU_SPH_MUST_BE_VISIBLE,
+    HU_SPH_NOT_CONTAINED,
+    HU_ILLCOND
+};
+#define C16_HU_LABELS "camera_axis_aligned", "camera_general", "box_infinite", "box_wider_than_max", "box_half_infinite", "box_huge_finite", "box_touches(must be visible)", "box_has_point_outside(must not be contained)", "sphere_radius_max", "sphere_far_centre", "sphere_touches(must be visible)", "sphere_has_point_outside(must not be contained)", "unresolvable_or_overflowing_face_skipped"
+
+// camera with exactly axis-aligned axes: signed permutation (det +1) x power-of-two scales, optional translation
+template <class T> static Matrix44<T> gen_axis_camera (vp::Src& s)
+{
+    static const int PERM[6][3] = { { 0, 1, 2 }, { 1, 2, 0 }, { 2, 0, 1 }, { 0, 2, 1 }, { 2, 1, 0 }, { 1, 0, 2 } }; // first three even
+    int              pi = (int) s.below (6);
+    int              sg = (int) s.below (4);
+    double           sign[3];
+    sign[0] = (sg & 1) ? -1 : 1;
+    sign[1] = (sg & 2) ? -1 : 1;
+    sign[2] = sign[0] * sign[1] * (pi < 3 ? 1 : -1); // determinant +1
+    double sc[3] = { 1, 1, 1 };
+    int    sk    = (int) s.below (3);
+    if (sk == 1)
+    {
+        int e = (int) s.range (-3, 3);
+        sc[0] = sc[1] = sc[2] = std::ldexp (1.0, e);
+    }
+    else if (sk == 2)
+        for (int i = 0; i < 3; ++i)
+        {
+            int e = (int) s.range (-2, 2);
+            sc[i] = std::ldexp (1.0, e);
+        }
+    Matrix44<T> M;
+    for (int i = 0; i < 4; ++i)
+        for (int j = 0; j < 4; ++j)
+            M[i][j] = (T) (i == j && i == 3 ? 1 : 0);
+    for (int i = 0; i < 3; ++i)
+        M[i][PERM[pi][i]] = (T) (sign[i] * sc[i]);
+    if (s.coin ())
+        for (int j = 0; j < 3; ++j)
+            M[3][j] = gen::nice<T> (s);
+    return M;
+}
+
+template <class T> static void cull_huge_case (vp::Ctx& c, const char* tn)
+{
+    typedef Vec3<T>                V;
+    typedef std::numeric_limits<T> L;
+    vp::Src&                       s   = c.s;
+    const quad                     eps = EPS<T> ();
+    const quad                     MAXQ = (quad) L::max ();
+    FG<T>                          g   = gen_frustum<T> (c, true, 6);
+    Matrix44<T>                    M;
+    if (s.coin ())
+    {
+        M = gen_axis_camera<T> (s);
+        c.label (HU_CAM_AXIS);
+    }
+    else
+    {
+        int mk = (int) s.range (MK_RIGID, MK_GENERAL);
+        M      = gen_affine<T> (s, mk, false);
+        c.label (HU_CAM_GENERAL);
+    }
+    VP_NOTE (c, "camera=" << mstr (M, 4));
+    FrustumTest<T> ft (g.F, M);
+    XPlanes<T>     X = exact_planes (g, &M);
+    for (int i = 0; i < 6; ++i)
+        if (!(eps * (1 + X.condN[i]) <= (quad) (1.0 / 64)))
+        {
+            c.label (HU_ILLCOND);
+            return;
+        }
+    c.nt ();
+    auto l1 = [] (const Q3& a) -> quad { return qabs (a.x) + qabs (a.y) + qabs (a.z); };
+    quad bfac[6];
+    for (int j = 0; j < 6; ++j)
+        bfac[j] = 8 * eps * (1 + X.condN[j]);
+    auto band = [&] (int j, const Q3& w) -> quad { return bfac[j] * (l1 (w - X.P0[j]) + X.S[j] + l1 (w)); };
+    auto sd   = [&] (int j, const Q3& w) -> quad { return dot (X.N[j], w) - X.d[j]; };
+    auto inside = [&] (const Q3& w) -> bool { // strictly inside the exact region by more than the margin
+        for (int j = 0; j < 6; ++j)
+            if (!(sd (j, w) <= -band (j, w))) return false;
+        return true;
+    };
+    // an anchor point in or around the frustum
+    quad au  = (quad) s.uniform (0, 2);
+    int  ak  = (int) s.below (8);
+    V    anc = rnd<T> (X.cen + (X.cor[ak] - X.cen) * au);
+    Q3   ANC = q3 (anc);
+    const int E10 = L::max_exponent10; // 38 / 308
+    // ---- box
+    {
+        V   mn, mx;
+        int kind = (int) s.below (4);
+        for (int a = 0; a < 3; ++a)
+        {
+            int lk = kind == 0 ? 0 : kind == 1 ? 1 : (int) s.below (4);
+            int hk = kind == 0 ? 0 : kind == 1 ? 1 : (int) s.below (4);
+            switch (lk)
+            {
+                case 0: mn[a] = L::lowest (); break;
+                case 1:
+                {
+                    double f = s.uniform (0.5, 1.0);
+                    mn[a]    = -(T) f * L::max ();
+                    break;
+                }
+                case 2:
+                {
+                    double e = s.uniform (E10 / 2, E10 - 1);
+                    mn[a]    = -(T) std::pow (10.0, e);
+                    break;
+                }
+                default:
+                {
+                    double e = s.uniform (-3, 1);
+                    mn[a]    = anc[a] - (T) std::pow (10.0, e) * std::max ((T) 1, std::abs (anc[a]));
+                    break;
+                }
+            }
+            switch (hk)
+            {
+                case 0: mx[a] = L::max (); break;
+                case 1:
+                {
+                    double f = s.uniform (0.5, 1.0);
+                    mx[a]    = (T) f * L::max ();
+                    break;
+                }
+                case 2:
+                {
+                    double e = s.uniform (E10 / 2, E10 - 1);
+                    mx[a]    = (T) std::pow (10.0, e);
+                    break;
+                }
+                default:
+                {
+                    double e = s.uniform (-3, 1);
+                    mx[a]    = anc[a] + (T) std::pow (10.0, e) * std::max ((T) 1, std::abs (anc[a]));
+                    break;
+                }
+            }
+        }
+        Box<V> box (mn, mx);
+        if (kind == 0)
+        {
+            box = Box<V> (anc, anc);
+            box.makeInfinite ();
+            VP_REQUIRE (c, box.isInfinite () && same3 (box.min, mn) && same3 (box.max, mx), "box/makeInfinite", tn << " makeInfinite() gives " << vs (box.min) << " .. " << vs (box.max));
+        }
+        Q3   A = q3 (box.min), B = q3 (box.max);
+        bool inf = box.min == V (L::lowest ()) && box.max == V (L::max ());
+        bool wider = false, half = false;
+        for (int a = 0; a < 3; ++a)
+        {
+            if (B[a] - A[a] > MAXQ) wider = true;
+            if ((A[a] == -MAXQ) != (B[a] == MAXQ)) half = true;
+        }
+        c.label (inf ? HU_BOX_INFINITE : wider ? HU_BOX_WIDER_THAN_MAX : half ? HU_BOX_HALF_INFINITE : HU_BOX_HUGE_FINITE);
+        VP_NOTE (c, "box " << vs (box.min) << " .. " << vs (box.max));
+        VP_REQUIRE (c, !box.isEmpty (), "harness/huge-box-empty", "generated box is empty");
+        bool vis = ft.isVisible (box), con = ft.completelyContains (box);
+        // deepest / shallowest corner of the box for each plane, and the conditioning guard
+        bool deep_ok = true, shallow_out = false;
+        int  out_j   = -1;
+        Q3   wit_out;
+        for (int j = 0; j < 6; ++j)
+        {
+            Q3 lo, hi;
+            for (int a = 0; a < 3; ++a)
+            {
+                bool pos = X.N[j][a] >= 0;
+                lo[a]    = pos ? A[a] : B[a];
+                hi[a]    = pos ? B[a] : A[a];
+            }
+            quad guard = band (j, lo) + band (j, hi) + 8 * eps * (l1 (A) + l1 (B));
+            if (!(sd (j, lo) <= -guard)) deep_ok = false;
+            if (sd (j, hi) >= guard && !shallow_out) shallow_out = true, out_j = j, wit_out = hi;
+        }
+        // witnesses inside the region: the frustum centroid / the anchor clamped into the box, the box centre, random points
+        bool touches = false;
+        Q3   wit_in;
+        for (int k = 0; k < 6 && !touches; ++k)
+        {
+            Q3 p;
+            if (k < 2)
+            {
+                Q3 src = k == 0 ? X.cen : ANC;
+                for (int a = 0; a < 3; ++a)
+                    p[a] = qmin (qmax (src[a], A[a]), B[a]);
+            }
+            else if (k == 2)
+                p = (A + B) * (quad) 0.5;
+            else
+                for (int a = 0; a < 3; ++a)
+                {
+                    quad u = (quad) s.unit ();
+                    p[a]   = A[a] + (B[a] - A[a]) * u;
+                }
+            if (inside (p)) touches = true, wit_in = p;
+        }
+        if (touches && deep_ok)
+        {
+            c.label (HU_BOX_MUST_BE_VISIBLE);
+            VP_REQUIRE (c, vis, "FrustumTest/isVisible-huge-box", tn << " isVisible(box " << vs (box.min) << ".." << vs (box.max) << ") = false although its point " << qs (wit_in) << " is inside the frustum");
+        }
+        if (shallow_out)
+        {
+            c.label (HU_BOX_NOT_CONTAINED);
+            VP_REQUIRE (c, !con, "FrustumTest/completelyContains-huge-box", tn << " completelyContains(box " << vs (box.min) << ".." << vs (box.max) << ") = true although its corner " << qs (wit_out) << " is outside the " << PLANE_NAME[out_j] << " plane by " << qstr (sd (out_j, wit_out)));
+        }
+        VP_REQUIRE (c, !(con && !vis), "FrustumTest/contained-but-invisible-box", tn << " box is completely contained but not visible");
+    }
+    // ---- sphere
+    {
+        V ctr = anc;
+        if (s.chance (96))
+        {
+            // far centre, up to 10^(E10-2)
+            double dx = s.uniform (-1, 1);
+            double dy = s.uniform (-1, 1);
+            double dz = s.uniform (-1, 1);
+            if (dx * dx + dy * dy + dz * dz < 0.01) dx = 1;
+            double e = s.uniform (3, E10 - 2);
+            Q3     D = unit (Q3 (dx, dy, dz)) * (quad) std::pow (10.0, e);
+            ctr        = rnd<T> (D);
+            c.label (HU_SPH_FAR_CENTRE);
+        }
+        Q3 C = q3 (ctr);
+        T  rad;
+        switch (s.below (4))
+        {
+            case 0:
+                rad = L::max ();
+                c.label (HU_SPH_RADIUS_MAX);
+                break;
+            case 1:
+            {
+                double f = s.uniform (0.01, 1.0);
+                rad      = (T) f * L::max ();
+                break;
+            }
+            case 2:
+            {
+                double e = s.uniform (E10 / 2, E10 - 1);
+                rad      = (T) std::pow (10.0, e);
+                break;
+            }
+            default:
+            {
+                // around the distance from the centre to the frustum
+                double f = s.uniform (0.5, 2.0);
+                rad      = (T) ((len (C - X.cen) + 1) * (quad) f);
+                break;
+            }
+        }
+        Sphere3<T> sp (ctr, rad);
+        quad       R = (quad) rad;
+        VP_NOTE (c, "sphere centre " << vs (ctr) << " radius " << rad);
+        bool vis = ft.isVisible (sp), con = ft.completelyContains (sp);
+        bool deep_ok = true, shallow_out = false;
+        int  out_j   = -1;
+        for (int j = 0; j < 6; ++j)
+        {
+            quad guard = band (j, C) + band (j, C + X.N[j] * R) + 8 * eps * R;
+            if (!(sd (j, C) - R <= -guard)) deep_ok = false;
+            if (sd (j, C) + R >= guard && !shallow_out) shallow_out = true, out_j = j;
+        }
+        bool touches = false;
+        Q3   wit_in;
+        for (int k = 0; k < 4 && !touches; ++k)
+        {
+            Q3 p = k == 0 ? X.cen : k == 1 ? ANC : k == 2 ? C : (X.cen + X.cor[ak]) * (quad) 0.5;
+            if (len (p - C) <= R * (quad) 0.999 && inside (p)) touches = true, wit_in = p;
+        }
+        if (touches && deep_ok)
+        {
+            c.label (HU_SPH_MUST_BE_VISIBLE);
+            VP_REQUIRE (c, vis, "FrustumTest/isVisible-huge-sphere", tn << " isVisible(sphere " << vs (ctr) << ", r=" << rad << ") = false although its point " << qs (wit_in) << " is inside the frustum");
+        }
+        if (shallow_out)
+        {
+            c.label (HU_SPH_NOT_CONTAINED);
+            VP_REQUIRE (c, !con, "FrustumTest/completelyContains-huge-sphere", tn << " completelyContains(sphere " << vs (ctr) << ", r=" << rad << ") = true although its point " << qs (C + X.N[out_j] * R) << " is outside the " << PLANE_NAME[out_j] << " plane");
+        }
+        VP_REQUIRE (c, !(con && !vis), "FrustumTest/contained-but-invisible-sphere", tn << " sphere is completely contained but not visible");
+    }
+}
+#define C16_HU_RULE C16_FR_RULE "(far/near up to 1e6) x cameras axis-aligned (signed permutation x 2^k scales, optional translation: exact zero normal components) or rigid..general affine; boxes: makeInfinite(), [-a max, b max]^3 with a,b in [0.5,1] (wider than max()), per-axis mixes of lowest()/max(), +-a max, +-10^(E/2..E-1) and faces next to a point in/around the frustum (half-infinite, huge finite), always with min+max finite; spheres centred there or up to 10^(E-2) away with radius max(), a fraction of max(), 10^(E/2..E-1) or 0.5..2 x the distance to the frustum; oracle = exact planes in quad: witness point inside / extreme corner outside, claims only where the extreme corner clears the rounding guard of n.centre -+ |n|.extent; every evaluated case counts as non-trivial"
+VP_RANDOM (cullhuge_f, 100000, 1000000, C16_HU_RULE) { cull_huge_case<float> (c, "float"); }
+VP_LABELS (cullhuge_f, C16_FR_LABELS, C16_HU_LABELS)
+VP_REQUIRE_LABELS (cullhuge_f, "perspective", "orthographic", "camera_axis_aligned", "camera_general", "box_infinite", "box_wider_than_max", "box_half_infinite", "box_huge_finite", "box_touches(must be visible)", "box_has_point_outside(must not be contained)", "sphere_radius_max", "sphere_far_centre", "sphere_touches(must be visible)", "sphere_has_point_outside(must not be contained)")
+VP_FUZZABLE (cullhuge_f)
+VP_RANDOM (cullhuge_d, 100000, 1000000, C16_HU_RULE) { cull_huge_case<double> (c, "double"); }
+VP_LABELS (cullhuge_d, C16_FR_LABELS, C16_HU_LABELS)
+VP_REQUIRE_LABELS (cullhuge_d, "perspective", "orthographic", "camera_axis_aligned", "camera_general", "box_infinite", "box_wider_than_max", "box_half_infinite", "box_huge_finite", "box_touches(must be visible)", "box_has_point_outside(must not be contained)", "sphere_radius_max", "sphere_far_centre", "sphere_touches(must be visible)", "sphere_has_point_outside(must not be contained)")
+VP_FUZZABLE (cullhuge_d)
 
 VP_MAIN ("C16")
